@@ -1,7 +1,8 @@
 import PP.Driver.Codec
 import PP.Model.Html
+import PP.Model.HtmlDoc
 /-
-Driver ops of C17 (HTML rendering): escapers, URL builders, document content.
+Driver ops of C17 (HTML rendering): escapers, URL builders, document content, whole document.
 -/
 namespace PP.OpsC17
 open Lean PP PP.Codec PP.Html
@@ -29,6 +30,24 @@ def encContent (r : Except HtmlErr (List Piece)) : Json :=
     match renderPieces ps with
     | .error e => Json.mkObj [("err", errStr e)]
     | .ok b => Json.mkObj [("err", ""), ("content", jBytes b)]
+
+/-- the metadata of `html.doc`: hex strings `favicon`, `now`, `remoteGOROOT`, `localGOROOT`, `footer`;
+`gomaxprocs`; `localGOPATHs` (array of hex strings); `localGomods` (array of [key, value] pairs of hex
+strings, in sorted key order) -/
+def decMeta (j : Json) : Except String DocMeta := do
+  let mods ← (← getArr j "localGomods").toList.mapM fun kv => do
+    let a ← kv.getArr?
+    match a.toList with
+    | [k, v] => pure ((← ofHex (← k.getStr?)), (← ofHex (← v.getStr?)))
+    | _ => throw "localGomods: pair expected"
+  pure { favicon := ← getBytes j "favicon", now := ← getBytes j "now", gomaxprocs := ← getNat j "gomaxprocs",
+         remoteGOROOT := ← getBytes j "remoteGOROOT", localGOROOT := ← getBytes j "localGOROOT",
+         localGOPATHs := ← getBytesList j "localGOPATHs", localGomods := mods, footer := ← getBytes j "footer" }
+
+def encDoc (r : Except HtmlErr Bytes) : Json :=
+  match r with
+  | .error e => Json.mkObj [("err", errStr e)]
+  | .ok b => Json.mkObj [("err", ""), ("doc", jBytes b)]
 
 def handle (op : String) (j : Json) : Option (Except String Json) :=
   match op with
@@ -62,6 +81,14 @@ def handle (op : String) (j : Json) : Option (Except String Json) :=
     let bs ← (← getArr j "buckets").toList.mapM decBucket
     let ver ← getBytes j "ver"
     pure (encContent (contentAggregated ver bs))
+  | "html.doc" => some do
+    -- the whole document of `Snapshot.ToHTML` (key "gs") or `Aggregated.ToHTML` (key "buckets")
+    let m ← decMeta j
+    let ver ← getBytes j "ver"
+    let body ← match j.getObjVal? "buckets" with
+      | .ok _ => do pure (DocBody.aggregated (← (← getArr j "buckets").toList.mapM decBucket))
+      | .error _ => do pure (DocBody.snapshot (← decGs j "gs"))
+    pure (encDoc (renderDoc { m with ver := ver, body := body }))
   | _ => none
 
 end PP.OpsC17
